@@ -309,6 +309,10 @@ Definition cmd_stack (wf special : gmap) (cd cv : rmap) : option gmap :=
 Definition prop_stack (wf special : gmap) (cd cv : rmap) : gmap :=
   merge (wrapped_and_flattened wf [raw_map cv; raw_map cd]) special.
 
+(* callable.Call.Call: the role's ConsolidatedVarStack with the call's special values
+   (environment_id and the __call_ keys) written over it *)
+Definition call_stack (p : path) (special : gmap) : gmap := merge (consolidated p) special.
+
 (* ---------- correspondence cases ---------- *)
 Inductive c14_case :=
 (* gera level: hierarchy h (after ops), other hierarchy for WrappedAndFlattened *)
@@ -317,11 +321,15 @@ Inductive c14_case :=
 | CFlatStack (hs : list hier) (o : gmap)
 (* template.Sequence.Execute: value of {{ key }} at each of the stages, None = unknown name *)
 | CStage (locals : gmap) (d v u : hier) (keys : list str) (o : list (list (option str)))
-(* real role tree *)
-| CTree (env : level) (t : rtree) (ops : list (list N * mop)) (o : option (list view))
+(* real role tree; [locs] = which role addresses of the expanded tree were generated by an
+   iterator, with the iterator variable and its value (a description of the input tree) *)
+| CTree (env : level) (t : rtree) (ops : list (list N * mop))
+        (locs : list (list N * (str * str))) (o : option (list view))
 (* task level on a real role whose path is p *)
 | CTask (p : path) (special : gmap) (cd cv : rmap) (keys : list str)
-        (o_cmd o_prop : list (option str)).
+        (o_cmd o_prop : list (option str))
+(* a call role at the bottom of a real role chain: value of {{ key }} as the call's function *)
+| CCall (p : path) (special : gmap) (keys : list str) (o : list (option str)).
 
 Definition ostr_eqb := option_eqb str_eqb.
 
@@ -352,13 +360,15 @@ Definition corr14 (c : c14_case) : bool :=
   | CStage locals d v u keys o =>
     list_eqb (list_eqb ostr_eqb)
              (map (fun s => map (fun k => assoc k (staged_of s locals d v u)) keys) stage_list) o
-  | CTree env t ops o => option_eqb (list_eqb view_eqb) (run_tree env t ops) o
+  | CTree env t ops _ o => option_eqb (list_eqb view_eqb) (run_tree env t ops) o
   | CTask p special cd cv keys o_cmd o_prop =>
     let wf := consolidated p in
     list_eqb ostr_eqb
              (map (fun k => match cmd_stack wf special cd cv with
                             | Some st => assoc k st | None => None end) keys) o_cmd &&
     list_eqb ostr_eqb (map (fun k => assoc k (prop_stack wf special cd cv)) keys) o_prop
+  | CCall p special keys o =>
+    list_eqb ostr_eqb (map (fun k => assoc k (call_stack p special)) keys) o
   end.
 
 (* ---------- monitor: the property evaluated on what the implementation reported ----------
@@ -373,7 +383,9 @@ Definition corr14 (c : c14_case) : bool :=
      6  task command line: a class default outranked a class var for a key the workflow does
         not define (recorded finding C14-a)
      7  task command line: any other deviation from special > workflow > class vars > class defaults
-     8  task property map: deviation from special > workflow > class vars > class defaults *)
+     8  task property map: deviation from special > workflow > class vars > class defaults
+     9  the variable of an iterator is not a var of the role generated for one of its values
+    10  a call does not see special > the consolidated stack of its role *)
 
 Definition all_keys (ms : list gmap) : list str := map fst (concat ms).
 
@@ -441,8 +453,14 @@ Definition mon14 (c : c14_case) : N :=
                ++ (if 2 <=? s then [hd [] d] else []) ++ tl d in
     first_code (map (fun s => check_vals 5 keys (fun k => first_hit k (srcs s)) (nth_row o s))
                     stage_list)
-  | CTree env t ops (Some vs) => first_code (map (mon_view env vs) vs)
-  | CTree _ _ _ None => 0
+  | CTree env t ops locs (Some vs) =>
+    first_code (map (mon_view env vs) vs ++
+                map (fun l => match find_view vs (fst l) with
+                              | Some w => if ostr_eqb (assoc (fst (snd l)) (l_vars (w_own w)))
+                                                      (Some (snd (snd l))) then 0 else 9
+                              | None => 9
+                              end) locs)
+  | CTree _ _ _ _ None => 0
   | CTask p special cd cv keys o_cmd o_prop =>
     let wfs := special :: sources p in
     let look0 := fun k => first_hit k wfs in
@@ -467,6 +485,7 @@ Definition mon14 (c : c14_case) : N :=
       end in
     first_code [ cmd_code;
                  check_vals 8 keys (fun k => first_hit k (wfs ++ [raw_map cv; raw_map cd])) o_prop ]
+  | CCall p special keys o => check_vals 10 keys (fun k => first_hit k (special :: sources p)) o
   end.
 
 (* ---------- branch tags (input distribution) ----------
@@ -491,15 +510,17 @@ Definition tag14 (c : c14_case) : N :=
     100 + tag_bits keys (apply_hops ops h0)
   | CFlatStack hs _ => 200 + tag_bits (all_keys (concat hs)) (concat (rev hs))
   | CStage locals d v u keys _ => 300 + tag_bits keys ([locals] ++ u ++ v ++ d)
-  | CTree env t ops (Some vs) =>
+  | CTree env t ops _ (Some vs) =>
     400 + (if existsb (fun w => Nat.leb 3 (length (w_addr w))) vs then 8 else 0)
         + fold_right N.lor 0
             (map (fun w => let p := observed_path env vs (w_addr w) in
                            tag_bits (all_keys (sources p)) (sources p)) vs)
-  | CTree _ _ _ None => 416
+  | CTree _ _ _ _ None => 416
   | CTask p special cd cv keys _ _ =>
     500 + (if Nat.leb 3 (length p) then 8 else 0)
         + tag_bits keys (special :: sources p ++ [raw_map cv; raw_map cd])
+  | CCall p special keys _ =>
+    600 + (if Nat.leb 3 (length p) then 8 else 0) + tag_bits keys (special :: sources p)
   end.
 
 Definition report14 := report corr14 mon14 tag14.
